@@ -155,6 +155,43 @@ def run(rep, pdb, tier):
             ok = e.index == ("tup", i, j) and e.value == ("idx", ("idx", VARS, flat(i, j)), P(1)) and ri[1:5] == (num(0), NX, False, False) and rj[1:5] == (num(0), NY, False, False) and \
                 shape and ctx.term(fn["body"]["expr"]) == e.target
         rep.add("var-matrix", rule, ok, fn["body"], "", where=loc(fn["body"]))
+    # ---- assign / apply
+    fn = pdb.fn("%s::assign" % M2)
+    rule = "assign(e) writes e to every variable of every node: (i, j, v) over 0..nx x 0..ny x 0..nvars through the flat map"
+    if fn is None:
+        rep.missing("assign-apply/assign", rule, "not found")
+    else:
+        ctx = Ctx.for_fn(pdb, fn)
+        es = [e for e in effects(pdb, ctx) if e.kind == "set"]
+        ok = len(es) == 1 and len(es[0].loops) == 3
+        if ok:
+            e = es[0]
+            r = [for_range(ctx, l) for l in e.loops]
+            ok = all(x is not None for x in r) and [x[1:5] for x in r] == [(num(0), NX, False, False), (num(0), NY, False, False), (num(0), NV, False, False)] and \
+                e.target == ("idx", VARS, flat(r[0][0], r[1][0])) and e.index == r[2][0] and e.value == P(1)
+        rep.add("assign-apply/assign", rule, ok, fn["body"], "", where=loc(fn["body"]))
+    fn = pdb.fn("%s::apply" % M2)
+    rule = "apply(f, var) stores f(x_nodes[i], y_nodes[j]) in variable var of node (i, j) for every node (x from the x axis, y from the y axis)"
+    if fn is None:
+        rep.missing("assign-apply/apply", rule, "not found")
+    else:
+        ctx = Ctx.for_fn(pdb, fn)
+        es = [e for e in effects(pdb, ctx) if e.kind == "set"]
+        ok = len(es) == 1 and len(es[0].loops) == 2
+        if ok:
+            e = es[0]
+            r = [for_range(ctx, l) for l in e.loops]
+            ok = all(x is not None for x in r)
+            if ok:
+                i, j = r[0][0], r[1][0]
+                v = e.value
+                xa = v[2] if v[0] == "callv" and len(v) == 4 else None
+                ya = v[3] if v[0] == "callv" and len(v) == 4 else None
+                xa = ctx.def_term(xa) if xa is not None and xa[0] == "var" and ctx.def_term(xa) is not None else xa
+                ya = ctx.def_term(ya) if ya is not None and ya[0] == "var" and ctx.def_term(ya) is not None else ya
+                ok = [x[1:5] for x in r] == [(num(0), NX, False, False), (num(0), NY, False, False)] and e.target == ("idx", VARS, flat(i, j)) and e.index == P(2) and \
+                    v[0] == "callv" and v[1] == P(1) and xa == ("idx", F(P(0), "x_nodes"), i) and ya == ("idx", F(P(0), "y_nodes"), j)
+        rep.add("assign-apply/apply", rule, ok, fn["body"], "", where=loc(fn["body"]))
     # ---- trapezium 1-D
     fn = pdb.fn("%s::trapezium" % M1F)
     rule = "1-D trapezium: cells node in 0..len-1; dx = nodes[node+1]-nodes[node]; contribution 0.5*dx*(v[node] + v[node+1]) — the two end points of the same cell"
@@ -316,6 +353,7 @@ def run(rep, pdb, tier):
     rep.floor("storage/", 4)
     rep.floor("cross-sections/", 2)
     rep.floor("trapezium-2d/", 2)
+    rep.floor("assign-apply/", 2)
     rep.assumptions += ["exactness of the quadrature for (bi)linear data and of the interpolant on dyadic grids, the printed-precision round trip and behaviour inside the 1e-7 snapping window are numerical and not decided statically",
                         "the raw (i,j) index operators of Mesh2D state no range check and are outside the flat-index claim"]
     return {"flat_sites": n_sites}
